@@ -545,6 +545,15 @@ def check_reads(job):
         files = dict(READS_FILES)
         if variant == 'no-subproject':
             files['meson.build'] = files['meson.build'].replace("subproject('sub')\n", '')
+        if variant.startswith('failing-subproject'):
+            # an optional subproject that fails after (or while) reading its files: they have been read all the same
+            files['meson.build'] = files['meson.build'].replace("subproject('sub')\n", "subproject('sub', required: false)\n")
+            files['subprojects/sub/meson.build'] += {'failing-subproject-error': "error('giving up')\n",
+                                                     'failing-subproject-dependency': "dependency('verif-no-such-dependency')\n",
+                                                     'failing-subproject-subdir': "subdir('sd')\n"}[variant]
+            if variant.endswith('-subdir'):
+                files['subprojects/sub/sd/meson.build'] = "sd = fs.read('SD.txt')\nerror('giving up in a subdir')\n"
+                files['subprojects/sub/sd/SD.txt'] = 'sd\n'
         mp.write_tree(src, files)
         r = mp.run_meson(['setup', bdir, src], root, timeout=90)
         if r.rc != 0:
@@ -637,6 +646,26 @@ def main():
                 if '--layout=flat' in combo and pl == 'sub':
                     continue
                 jobs.append(('gen', r.desc + ' @' + pl + ' ' + ' '.join(combo), files, None, combo, bs_files_for(r.files)))
+    # every target kind placed with build_subdir:, at the root and in a subdir, under both layouts
+    kinds = {'executable': "executable('p_exe', SRC, build_subdir: 'deep')",
+             'static_library': "static_library('p_st', LIB, build_subdir: 'deep')",
+             'shared_library': "shared_library('p_sh', LIB, build_subdir: 'deep', version: '1.2.3')",
+             'both_libraries': "both_libraries('p_both', LIB, build_subdir: 'deep/er')",
+             'shared_module': "shared_module('p_mod', LIB, build_subdir: 'deep')",
+             'custom_target': "custom_target('p_ct', output: 'p_ct.txt', command: ['touch', '@OUTPUT@'], build_subdir: 'deep')",
+             'custom_target-2': "custom_target('p_ct2', output: ['p_a.txt', 'p_b.txt'], command: ['touch', '@OUTPUT@'], build_subdir: 'deep')"}
+    for kname, decl in kinds.items():
+        for place in ('root', 'subdir'):
+            up = '../' if place == 'subdir' else ''
+            body = decl.replace('SRC', "files('%smain.c')" % up).replace('LIB', "files('%slib.c')" % up) + '\n'
+            files = {'main.c': 'int main(void) { return 0; }\n', 'lib.c': 'int libf(void) { return 3; }\n'}
+            if place == 'root':
+                files['meson.build'] = "project('placed', 'c')\n" + body
+            else:
+                files['meson.build'] = "project('placed', 'c')\nsubdir('d')\n"
+                files['d/meson.build'] = body
+            for combo in ((), ('--layout=flat',)):
+                jobs.append(('placed', '%s with build_subdir @%s %s' % (kname, place, ' '.join(combo)), files, None, combo, bs_files_for(files)))
     rich = dict(RICH)
     jobs.append(('rich', 'rich', rich, None, (), bs_files_for(RICH)))
     jobs.append(('rich', 'rich-flat', rich, None, ('--layout=flat',), bs_files_for(RICH)))
@@ -651,6 +680,8 @@ def main():
     jobs.append(('tests',))
     jobs.append(('reads', 'with-subproject'))
     jobs.append(('reads', 'no-subproject'))
+    for how in ('error', 'dependency', 'subdir'):
+        jobs.append(('reads', 'failing-subproject-' + how))
     jobs.append(('install', 'rich', RICH))
     jobs.append(('install', 'nolang', NOLANG))
     jobs.append(('install', 'install-dirs', install_dirs_project()))
